@@ -203,6 +203,7 @@ def run(prog: Program, rep: Report):
     r2_observers(prog, rep)
     r3_reset(prog, rep)
     r4_ring(prog, rep)
+    r5_ring_slots(prog, rep)
 
 
 def r1_emit(prog, rep: Report):
@@ -470,3 +471,127 @@ def r4_ring(prog, rep: Report):
                       scenario="the size exceeds the capacity (or stops one short): len(buffer) != min(k, c)", line=grow.lineno)
         except NotAFormula as ex:
             rep.unrec("C15.R4", p, "put:saturation", f"growth guard not a comparison of size and capacity: {ex}")
+
+
+# ---------------------------------------------------------------------------------------------- R5
+def _linear(e: ast.expr, sym) -> Optional[Dict[str, int]]:
+    """linear form {symbol: coefficient, '1': constant} of an integer expression; ``sym`` maps leaf expressions to symbols"""
+    k = sym(e)
+    if k is not None:
+        return {k: 1}
+    if isinstance(e, ast.Constant) and isinstance(e.value, int) and not isinstance(e.value, bool):
+        return {"1": e.value}
+    if isinstance(e, ast.UnaryOp) and isinstance(e.op, (ast.USub, ast.UAdd)):
+        a = _linear(e.operand, sym)
+        if a is None:
+            return None
+        return {k2: (-v if isinstance(e.op, ast.USub) else v) for k2, v in a.items()}
+    if isinstance(e, ast.BinOp) and isinstance(e.op, (ast.Add, ast.Sub)):
+        a, b = _linear(e.left, sym), _linear(e.right, sym)
+        if a is None or b is None:
+            return None
+        out = dict(a)
+        for k2, v in b.items():
+            out[k2] = out.get(k2, 0) + (v if isinstance(e.op, ast.Add) else -v)
+        return out
+    if isinstance(e, ast.BinOp) and isinstance(e.op, ast.Mult):
+        for x, y in ((e.left, e.right), (e.right, e.left)):
+            if isinstance(x, ast.Constant) and isinstance(x.value, int):
+                a = _linear(y, sym)
+                if a is not None:
+                    return {k2: v * x.value for k2, v in a.items()}
+    return None
+
+
+def _norm_lin(d: Dict[str, int]) -> Dict[str, int]:
+    return {k: v for k, v in d.items() if v != 0}
+
+
+def r5_ring_slots(prog, rep: Report):
+    rep.rule("C15.R5", "ring slot agreement (writer/reader): put writes slot W and advances W by one modulo the capacity; "
+             "__getitem__(i) reads slot W - size + i modulo the capacity (linear normal form over the fields in their roles, so the "
+             "newest item is the last slot written and the oldest is `size` writes back); a guarded alternative read is not decided",
+             floor=2)
+    c = prog.cls("CircularBuffer", RING_MOD)
+    g, p = prog.method(c, "__getitem__"), prog.method(c, "put")
+    rep.fn(g, p)
+    slots = _ring_slots_field(prog)
+    # roles
+    W = None
+    for n in walk_own(p.node):
+        if isinstance(n, ast.Assign) and isinstance(n.targets[0], ast.Subscript) and dotted(n.targets[0].value) == (p.self_name, slots):
+            d = dotted(n.targets[0].slice)
+            if d and len(d) == 2:
+                W = d[1]
+    S = None
+    ln = prog.method(c, "__len__")
+    for r in returns_of(ln.node):
+        d = dotted(r.value) if r.value is not None else None
+        if d and len(d) == 2:
+            S = d[1]
+    if W is None or S is None:
+        rep.unrec("C15.R5", p, "roles", "write offset / size fields not identifiable")
+        return
+
+    def is_cap(e, f) -> bool:
+        t = src(e)
+        return t in (f"{f.self_name}.max_size", f"len({f.self_name}.{slots})")
+
+    def mk_sym(f, idx_param=None):
+        def sym(e):
+            d = dotted(e)
+            if d and len(d) == 2 and d[0] == f.self_name and d[1] in (W, S):
+                return "W" if d[1] == W else "S"
+            if idx_param and isinstance(e, ast.Name) and e.id == idx_param:
+                return "i"
+            return None
+        return sym
+    # writer: W = (W + 1) % cap
+    adv = None
+    for t, val, st in __import__("sa.util", fromlist=["iter_stores"]).iter_stores(p.node):
+        if dotted(t) == (p.self_name, W):
+            adv = val if val is not None else st
+    ok = False
+    if isinstance(adv, ast.BinOp) and isinstance(adv.op, ast.Mod) and is_cap(adv.right, p):
+        lin = _linear(adv.left, mk_sym(p))
+        ok = lin is not None and _norm_lin(lin) == {"W": 1, "1": 1}
+    elif isinstance(adv, ast.AugAssign):
+        ok = False
+    rep.check("C15.R5", p, "advance", ok, f"self.{W} = (self.{W} + 1) % capacity",
+              f"put does not advance the write offset by exactly one modulo the capacity: `{src(adv) if adv is not None else '?'}`",
+              scenario="after a wrap-around the newest item is written over the wrong slot: list(buffer) is not the tail of the put history")
+    # reader
+    idx = g.params[1]
+    reads = [n for n in walk_own(g.node) if isinstance(n, ast.Subscript) and isinstance(n.ctx, ast.Load)
+             and dotted(n.value) == (g.self_name, slots)]
+    if not reads:
+        rep.unrec("C15.R5", g, "read-slot", "no read of the slot array")
+        return
+    for rd in reads:
+        e = rd.slice
+        has_mod = isinstance(e, ast.BinOp) and isinstance(e.op, ast.Mod) and is_cap(e.right, g)
+        inner = e.left if has_mod else e
+        lin = _linear(inner, mk_sym(g, idx))
+        guarded = False
+        p_ = getattr(rd, "_parent", None)
+        first_guard = None
+        while p_ is not None and p_ is not g.node:
+            if isinstance(p_, (ast.If, ast.IfExp)):
+                first_guard = p_
+            p_ = getattr(p_, "_parent", None)
+        # the index guard of R4 is the first statement; any *other* enclosing test makes this a conditional alternative
+        body0 = [st for st in g.node.body if not (isinstance(st, ast.Expr) and isinstance(st.value, ast.Constant))]
+        guarded = first_guard is not None and first_guard is not (body0[0] if body0 else None)
+        if lin is None:
+            rep.unrec("C15.R5", g, "read-slot", f"slot expression `{src(e)}` is not linear in (write offset, size, index)", rd.lineno)
+            continue
+        good = _norm_lin(lin) == {"W": 1, "S": -1, "i": 1}
+        if good:
+            rep.ok("C15.R5", g, "read-slot", f"reads slot (W - size + i){' % capacity' if has_mod else ''}: `{src(e)}`")
+        elif guarded:
+            rep.unrec("C15.R5", g, "read-slot", f"alternative slot expression `{src(e)}` under a guard: its agreement with the writer "
+                      f"depends on an invariant this rule does not decide", rd.lineno)
+        else:
+            rep.viol("C15.R5", g, "read-slot", f"`{src(e)}` is not (write offset - size + index) modulo the capacity: normal form "
+                     f"{_norm_lin(lin)}", scenario="CircularBuffer(3): put 1,2,3,4 then buffer[0] must be 2 (the oldest of the last "
+                                                     "three); a different slot expression returns another element", line=rd.lineno)
